@@ -168,6 +168,9 @@ def build_side(w, side):
     crow, ccol = _coords(w)
     left_im = _image(w["left"], rows, cols, bands)
     im = left_im if side == "left" else _right_image(w["right"], left_im, rows, cols, bands)
+    if w.get("level"):
+        # radiometric level: the same content on top of a large constant (12/16-bit imagery with little contrast)
+        im = (im + np.float32(w["level"])).astype(np.float32)
     names = w.get("band_names") or BAND_NAMES[:bands]
     if bands == 1:
         ds = xr.Dataset(
